@@ -682,7 +682,7 @@ dispatch_len_harness!(c10_contains_len_16, 16, 3);
 /// `x in {"..", "."}` with one 2-byte and one 1-byte item (symbolic contents)
 /// and a probe of up to 2 bytes.
 #[kani::proof]
-#[kani::unwind(8)]
+#[kani::unwind(4)]
 #[kani::stub(crate::ast::index_expr::IndexExpr::compile_with, compile_with_stub)]
 #[kani::stub(rand::rngs::thread::rng, rng_stub)]
 fn c09_oneof_bytes() {
@@ -778,5 +778,45 @@ fn c09_oneof_ip_v6_item() {
     kani::cover!(got);
     kani::cover!(!got && x4 && lo == 0);
     kani::cover!(!got && !x4);
+    std::mem::forget(s);
+}
+
+// ---------------------------------------------------------------- C17 (default only) ----
+
+/// Continuation that records the default only (does not apply the comparator):
+/// for arms whose comparator needs a real execution context.
+fn compile_with_stub_default_only<C: Compiler>(
+    this: IndexExpr,
+    _compiler: &mut C,
+    default: bool,
+    comp: impl Compare<C::U>,
+) -> CompiledExpr<C::U> {
+    unsafe {
+        REC_DEFAULT = default;
+        REC_CALLS += 1;
+    }
+    std::mem::forget(this);
+    std::mem::forget(comp);
+    CompiledExpr::One(CompiledOneExpr::new(|_| false))
+}
+
+/// `x in $list` with x absent must be false whatever the nil-not-equal setting.
+#[kani::proof]
+#[kani::unwind(4)]
+#[kani::stub(crate::ast::index_expr::IndexExpr::compile_with, compile_with_stub_default_only)]
+#[kani::stub(rand::rngs::thread::rng, rng_stub)]
+fn c17_inlist_absent_default() {
+    let nil_false: bool = kani::any();
+    let mut b = SchemeBuilder::new();
+    b.nil_not_equal_is_false = nil_false;
+    let s = b.build();
+    let op = ComparisonOpExpr::InList {
+        list: List { scheme: s.clone(), index: 0 },
+        name: ListName::from(String::from("l")),
+    };
+    let (default, _) = run(field_expr(&s, op));
+    assert!(!default, "absent x: `in $list` must be false");
+    kani::cover!(nil_false);
+    kani::cover!(!nil_false);
     std::mem::forget(s);
 }
